@@ -665,44 +665,131 @@ fn look(v: &JsonbValue, t: &T, bx: &mut Bx, st: &mut Stats) {
     }
 }
 
-/// every key path of the tree (+ one step beyond scalars/arrays, + missing keys)
+/// every path of the tree: object steps by key, array steps by (canonical decimal) index;
+/// + one step beyond scalars (a word and a digit step), + missing word / digit-only keys in
+/// every object, + the out-of-range index and a non-index step in every array
 fn paths(t: &T, prefix: &mut Vec<String>, out: &mut std::collections::BTreeSet<Vec<String>>) {
-    if let T::Obj(entries) = t {
-        for (k, v) in entries {
-            prefix.push(key_of(k).to_string());
-            out.insert(prefix.clone());
-            match v {
-                T::Obj(_) => paths(v, prefix, out),
-                _ => {
-                    prefix.push("a".into());
+    fn child(v: &T, prefix: &mut Vec<String>, out: &mut std::collections::BTreeSet<Vec<String>>) {
+        out.insert(prefix.clone());
+        match v {
+            T::Obj(_) | T::Arr(_) => paths(v, prefix, out),
+            _ => {
+                for s in ["a", "0"] {
+                    prefix.push(s.into());
                     out.insert(prefix.clone());
                     prefix.pop();
                 }
             }
-            prefix.pop();
         }
-        prefix.push("zz".into());
-        out.insert(prefix.clone());
-        prefix.push("a".into());
-        out.insert(prefix.clone());
-        prefix.pop();
-        prefix.pop();
-    } else if prefix.is_empty() {
-        out.insert(vec!["a".into()]);
-        out.insert(vec!["a".into(), "b".into()]);
+    }
+    match t {
+        T::Obj(entries) => {
+            for (k, v) in entries {
+                prefix.push(key_of(k).to_string());
+                child(v, prefix, out);
+                prefix.pop();
+            }
+            for missing in ["zz", "0", "1"] {
+                if entries.iter().any(|(k, _)| key_of(k) == missing) {
+                    continue;
+                }
+                prefix.push(missing.into());
+                out.insert(prefix.clone());
+                prefix.push("a".into());
+                out.insert(prefix.clone());
+                prefix.pop();
+                prefix.pop();
+            }
+        }
+        T::Arr(items) => {
+            for (i, v) in items.iter().enumerate() {
+                prefix.push(i.to_string());
+                child(v, prefix, out);
+                prefix.pop();
+            }
+            for s in [items.len().to_string(), "a".to_string()] {
+                prefix.push(s);
+                out.insert(prefix.clone());
+                prefix.pop();
+            }
+        }
+        _ if prefix.is_empty() => {
+            out.insert(vec!["a".into()]);
+            out.insert(vec!["a".into(), "b".into()]);
+            out.insert(vec!["0".into()]);
+        }
+        _ => {}
     }
 }
 
-fn stepwise<'a>(root: &JsonbView<'a>, path: &[&str]) -> Option<JsonbValue<'a>> {
-    let mut cur = root.as_value().ok()?;
+/// canonical decimal array index: digits only, no sign, no leading zero (except "0")
+fn canonical_index(s: &str) -> Option<usize> {
+    if s.is_empty() || !s.bytes().all(|b| b.is_ascii_digit()) || (s.len() > 1 && s.starts_with('0')) {
+        return None;
+    }
+    s.parse().ok()
+}
+
+/// Stepwise lookup with the real single-step accessors: `get(key)` on objects, `array_get(index)`
+/// on arrays (canonical index steps only; any other step into an array is absent).
+/// Second component: the path stepped through an array element.
+fn stepwise<'a>(root: &JsonbView<'a>, path: &[&str]) -> (Option<JsonbValue<'a>>, bool) {
+    let mut via_array = false;
+    let mut cur = match root.as_value() {
+        Ok(v) => v,
+        Err(_) => return (None, false),
+    };
     for k in path {
-        cur = match cur {
-            JsonbValue::Object(v) => v.get(k).ok()??,
-            JsonbValue::Array(v) => v.get(k).ok()??, // real call: Err on non-object = absent
-            _ => return None,
+        let next = match cur {
+            JsonbValue::Object(v) => v.get(k).ok().flatten(),
+            JsonbValue::Array(v) => match canonical_index(k) {
+                Some(i) => {
+                    via_array = true;
+                    v.array_get(i).ok().flatten()
+                }
+                None => v.get(k).ok().flatten(), // real call: Err on non-object = absent
+            },
+            _ => None,
+        };
+        cur = match next {
+            Some(x) => x,
+            None => return (None, via_array),
         };
     }
-    Some(cur)
+    (Some(cur), via_array)
+}
+
+/// step classes of a path, derived from the generated tree only (for signatures)
+fn step_classes(tree: &T, path: &[String]) -> String {
+    let mut cur: Option<&T> = Some(tree);
+    let mut out: Vec<&'static str> = Vec::new();
+    for s in path {
+        let digits = !s.is_empty() && s.bytes().all(|b| b.is_ascii_digit());
+        let (cls, next): (&'static str, Option<&T>) = match cur {
+            Some(T::Obj(entries)) => {
+                let hit = entries.iter().rev().find(|(k, _)| key_of(k) == s).map(|(_, v)| v);
+                (
+                    match (hit.is_some(), digits) {
+                        (true, true) => "digitkey",
+                        (true, false) => "key",
+                        (false, true) => "missing-digitkey",
+                        (false, false) => "missing-key",
+                    },
+                    hit,
+                )
+            }
+            Some(T::Arr(items)) => match canonical_index(s) {
+                Some(i) if i < items.len() => ("index", items.get(i)),
+                Some(_) => ("index-out-of-range", None),
+                None => ("nonindex-into-array", None),
+            },
+            Some(_) => (if digits { "digits-beyond-scalar" } else { "key-beyond-scalar" }, None),
+            None => ("beyond-absent", None),
+        };
+        out.push(cls);
+        cur = next;
+    }
+    out.join(",")
 }
 
 /// all view-level oracles on one JSONB byte string
@@ -752,7 +839,8 @@ fn check_bytes(bytes: &[u8], tree: &T, pre: &str, hint: Option<&str>, pol: Polic
         for p in &ps {
             let pr: Vec<&str> = p.iter().map(|s| s.as_str()).collect();
             st.add("get_path_calls", 1);
-            let step = stepwise(&view, &pr).map(|v| rb_value(&v));
+            let (step_v, via_array) = stepwise(&view, &pr);
+            let step = step_v.map(|v| rb_value(&v));
             let gp = match view.get_path(&pr) {
                 Ok(Some(v)) => Some(rb_value(&v)),
                 Ok(None) => None,
@@ -761,15 +849,23 @@ fn check_bytes(bytes: &[u8], tree: &T, pre: &str, hint: Option<&str>, pol: Polic
                     None
                 }
             };
-            let shape = format!("path-len{}-ends-{}", p.len(), match &step { Some(Ok(t)) => kind(t), Some(Err(_)) => "unreadable", None => "absent" });
+            if via_array {
+                st.add("get_path_through_array_element", 1);
+            }
+            let shape = format!("path({})-ends-{}", step_classes(tree, p), match &step { Some(Ok(t)) => kind(t), Some(Err(_)) => "unreadable", None => "absent" });
             match (&step, &gp) {
                 (None, None) => st.add("get_path_absent", 1),
                 (Some(Ok(a)), Some(Ok(b))) => {
                     st.add("get_path_present", 1);
+                    if via_array {
+                        st.add("get_path_present_through_array_element", 1);
+                    }
                     if !teq(a, b, pol) {
                         bx.fail("get_path", shape.clone(), "value-differs".into(), format!("stepwise {:?} = {}", p, show(a)), show(b));
                     }
                 }
+                // stepping into array elements is not promised: absent is accepted there
+                (Some(Ok(_)), None) if via_array => st.add("get_path_absent_through_array_element(tolerated)", 1),
                 (Some(_), None) => bx.fail("get_path", shape.clone(), "some>absent".into(), format!("stepwise {:?} = {:?}", p, step.as_ref().map(|r| r.as_ref().map(show))), "None/Err".into()),
                 (None, Some(b)) => bx.fail("get_path", shape.clone(), "absent>some".into(), format!("stepwise {:?} absent", p), format!("{:?}", b.as_ref().map(show))),
                 (Some(a), Some(b)) => bx.fail("get_path", shape.clone(), "unreadable".into(), format!("{:?}", a.as_ref().map(show)), format!("{:?}", b.as_ref().map(show))),
@@ -782,6 +878,7 @@ fn check_bytes(bytes: &[u8], tree: &T, pre: &str, hint: Option<&str>, pol: Polic
             match (&step, &og) {
                 (None, None) => {}
                 (Some(Ok(a)), Some(Ok(b))) if teq(a, b, pol) => st.add("owned_get_path_present", 1),
+                (Some(Ok(_)), None) if via_array => {}
                 _ => bx.fail("owned-get_path", shape, "differs-from-view".into(), format!("{:?}", step.as_ref().map(|r| r.as_ref().map(show))), format!("{:?}", og.as_ref().map(|r| r.as_ref().map(show)))),
             }
         }
@@ -824,6 +921,18 @@ fn check_bytes(bytes: &[u8], tree: &T, pre: &str, hint: Option<&str>, pol: Polic
                 Ok(t2) => {
                     if let Some((c, o)) = first_diff(tree, &t2, pol, "root") {
                         bx.fail("to_json_string", c, o, show(tree), vcore::util::clip(&s, 300));
+                    } else {
+                        // 5. text round trip is a fixpoint: the subject's own parser reads its own rendering back to the same document
+                        st.add("reparse_of_rendering", 1);
+                        match parse_json(&s) {
+                            Ok(r) => {
+                                let t3 = from_jsonvalue(&r.value);
+                                if let Some((c, o)) = first_diff(tree, &t3, pol, "root") {
+                                    bx.fail("reparse", c, o, format!("parse_json({}) = {}", vcore::util::clip(&s, 200), show(tree)), show(&t3));
+                                }
+                            }
+                            Err(e) => bx.fail("reparse", blame_parse(&t2, &|x| matches!(vcore::catch(|| parse_json(x).is_ok()), Ok(true))), "ok>err".into(), format!("parse_json accepts its own rendering {}", vcore::util::clip(&s, 200)), format!("{e:#}")),
+                        }
                     }
                 }
                 Err(e) => {
@@ -988,6 +1097,113 @@ fn extra_scalars() -> Vec<T> {
         num("9007199254740993", 9007199254740992.0),
         num("0.1", 0.1),
     ]
+}
+/// integer literals at representation boundaries, both signs: 2^k-1, 2^k, 2^k+1 (k = 7..64: the
+/// i8..u64 and f64-mantissa limits), 10^k-1, 10^k (k = 15..22: 15..23-digit literals around the
+/// 19/20-digit limits of i64/u64), and 30- / 39-digit integers. Value = the integer converted by
+/// the `as f64` cast (round to nearest even), cross-checked against std's parse in `check_doc`.
+fn boundary_ints() -> Vec<T> {
+    let mut mags: Vec<u128> = Vec::new();
+    for k in [7u32, 8, 15, 16, 24, 31, 32, 53, 63, 64] {
+        let p = 1u128 << k;
+        mags.extend([p - 1, p, p + 1]);
+    }
+    for k in 15u32..=22 {
+        let p = 10u128.pow(k);
+        mags.extend([p - 1, p]);
+    }
+    mags.push(123456789012345678901234567890);
+    mags.push(u128::MAX);
+    mags.sort();
+    mags.dedup();
+    let mut out = Vec::new();
+    for m in mags {
+        out.push(T::Num(m as f64, m.to_string()));
+        out.push(T::Num(-(m as f64), format!("-{m}")));
+    }
+    out
+}
+/// the same magnitudes around 2^63 / 2^64 / 10^19 written with a fraction or an exponent
+fn boundary_nonint_forms() -> Vec<T> {
+    vec![
+        num("9223372036854775807.0", 9223372036854775807.0),
+        num("9223372036854775808.0", 9223372036854775808.0),
+        num("-9223372036854775808.0", -9223372036854775808.0),
+        num("9.223372036854775808e18", 9.223372036854775808e18),
+        num("-9.223372036854775808E18", -9.223372036854775808e18),
+        num("9223372036854775807.5", 9223372036854775807.5),
+        num("18446744073709551615.0", 18446744073709551615.0),
+        num("1e19", 1e19),
+        num("1E+19", 1e19),
+        num("9.5e18", 9.5e18),
+        num("1e18", 1e18),
+        num("1e20", 1e20),
+        num("9007199254740993.0", 9007199254740993.0),
+    ]
+}
+/// the text the encoder itself renders for a number (None when it does not render a JSON number)
+fn rendering_of(v: f64) -> Option<T> {
+    let r = vcore::catch(|| {
+        let bytes = JsonbBuilder::new_number(v).build();
+        JsonbView::new(&bytes).ok()?.to_json_string().ok()
+    });
+    match r {
+        Ok(Some(s)) => match my_parse(&s) {
+            Ok(t @ T::Num(..)) => Some(t),
+            _ => None,
+        },
+        _ => None,
+    }
+}
+/// positions a scalar is tried in (end of text, before `]`, before `,`, before `}`)
+fn scalar_positions(x: &T) -> Vec<T> {
+    vec![x.clone(), T::Arr(vec![x.clone()]), T::Arr(vec![st_("a", "\"a\""), x.clone(), T::Bool(true)]), T::Obj(vec![(key("a"), x.clone())])]
+}
+
+/// digit-only object keys and their look-alikes
+const DIGIT_KEYS: [&str; 7] = ["0", "7", "1001", "-1", "1x", "01", "a"];
+/// documents with digit-only keys / look-alikes at depth 1..3, under objects and inside arrays
+fn digit_key_docs() -> Vec<T> {
+    let leaf = [T::Null, num("1.5", 1.5), st_("é", "\"é\"")];
+    // objects with one or two (distinct, both orders) keys from DIGIT_KEYS
+    let mut inner: Vec<T> = Vec::new();
+    for k in DIGIT_KEYS {
+        for l in &leaf {
+            inner.push(T::Obj(vec![(key(k), l.clone())]));
+        }
+    }
+    for k1 in DIGIT_KEYS {
+        for k2 in DIGIT_KEYS {
+            if k1 != k2 {
+                inner.push(T::Obj(vec![(key(k1), T::Null), (key(k2), st_("é", "\"é\""))]));
+            }
+        }
+    }
+    let arrays = vec![T::Arr(vec![]), T::Obj(vec![]), T::Arr(vec![T::Null]), T::Arr(vec![st_("é", "\"é\""), num("1.5", 1.5)])];
+    let mut out: Vec<T> = Vec::new();
+    // depth 1: the keys at the top level
+    out.extend(inner.iter().cloned());
+    // depth 2: below a word key, below digit keys, and inside a root array
+    let mut mid: Vec<T> = inner.clone();
+    mid.extend(arrays.iter().cloned());
+    for m in &mid {
+        for k in ["a", "0", "1001"] {
+            out.push(T::Obj(vec![(key(k), m.clone())]));
+        }
+        out.push(T::Arr(vec![m.clone()]));
+        out.push(T::Arr(vec![T::Null, m.clone()]));
+    }
+    // depth 3: {a:{k:m}}, {a:[m]}, {a:[null,m]}, [{k:m}], ["é",[m]]
+    for m in &mid {
+        for k in DIGIT_KEYS {
+            out.push(T::Obj(vec![(key("a"), T::Obj(vec![(key(k), m.clone())]))]));
+            out.push(T::Arr(vec![T::Obj(vec![(key(k), m.clone())])]));
+        }
+        out.push(T::Obj(vec![(key("a"), T::Arr(vec![m.clone()]))]));
+        out.push(T::Obj(vec![(key("a"), T::Arr(vec![T::Null, m.clone()]))]));
+        out.push(T::Arr(vec![st_("é", "\"é\""), T::Arr(vec![m.clone()])]));
+    }
+    out
 }
 fn key_seqs(alpha: &[&str], k: usize) -> Vec<Vec<T>> {
     let mut out = vec![vec![]];
@@ -1270,13 +1486,15 @@ impl Check for C32 {
         let mut s = Spec::new(
             "C32",
             "exploration",
-            "a case is one JSON document, generated as tree+text together. Scalars S = {null,true,false,0,-1,1.5,1e10,1E-2,\"\",\"a\",\"é\",\"\\\"\\\\\\n\",\"\\u0041\"}, keys K = {a,b,é}. Passes (pairwise disjoint by construction): P0 the 15 depth-1 documents; P1 every root array/object with <=3 children from S+{[],{}} and EVERY key sequence in K^k (duplicates, unsorted orders), in a compact and a whitespace-heavy text style; P2 depth 3: every root with <=3 children from C = leaves + all containers with 1..2 children over a reduced leaf set R (quick R={null,\"é\",[]}, leaves 6 scalars; thorough R={null,\"é\",[],{}}, leaves all of S) with every key sequence over {a,b} (quick) / K (thorough) at the root, at least one child of depth 2; P3 depth 4: root with 1..2 children, one from G3\\G2 (G_d = all trees of depth<=d with <=2 children over {\"é\",[],{}}, keys a / ab,ba,aa) and the other from G1 (quick) or G2 (thorough), both orders; chains of depth 5..8 (4 nesting kinds x 15 leaves); escape/number forms (18 extra scalars x 5 positions); string lengths {254..256, 65534..65537, 70000} (ASCII and 2-byte chars) x 4 positions; one array whose data section exceeds 2^24 bytes; SQL layer: documents of P0/P1 (quick: <=2 children and 3-element arrays; thorough: all), chains, escape forms and lengths INSERTed into a JSONB column and read back with SELECT *. Every document is non-trivial (exercises parse, encode, view).",
+            "a case is one JSON document, generated as tree+text together. Scalars S = {null,true,false,0,-1,1.5,1e10,1E-2,\"\",\"a\",\"é\",\"\\\"\\\\\\n\",\"\\u0041\"}, keys K = {a,b,é}. Passes (pairwise disjoint by construction): P0 the 15 depth-1 documents; P1 every root array/object with <=3 children from S+{[],{}} and EVERY key sequence in K^k (duplicates, unsorted orders), in a compact and a whitespace-heavy text style; P2 depth 3: every root with <=3 children from C = leaves + all containers with 1..2 children over a reduced leaf set R (quick R={null,\"é\",[]}, leaves 6 scalars; thorough R={null,\"é\",[],{}}, leaves all of S) with every key sequence over {a,b} (quick) / K (thorough) at the root, at least one child of depth 2; P3 depth 4: root with 1..2 children, one from G3\\G2 (G_d = all trees of depth<=d with <=2 children over {\"é\",[],{}}, keys a / ab,ba,aa) and the other from G1 (quick) or G2 (thorough), both orders; chains of depth 5..8 (4 nesting kinds x 15 leaves); escape/number forms (18 extra scalars x 5 positions); boundary numbers: the integer literals +-(2^k-1, 2^k, 2^k+1) for k in {7,8,15,16,24,31,32,53,63,64}, +-(10^k-1, 10^k) for k=15..22, +-30-digit and +-39-digit integers, 13 fraction/exponent spellings of the magnitudes around 2^63/2^64/10^19, and every further text the encoder itself renders for any number of the alphabet, x 4 positions x 2 text styles; digit-only object keys and look-alikes D={0,7,1001,-1,1x,01,a}: every object with 1 key (x3 leaves) or 2 distinct keys (both orders) over D at depth 1, below the keys a/0/1001 and inside root arrays at depth 2, and below {a:{k:.}}, [{k:.}] (k in D), {a:[.]}, {a:[null,.]}, [\"é\",[.]] at depth 3; string lengths {254..256, 65534..65537, 70000} (ASCII and 2-byte chars) x 4 positions; one array whose data section exceeds 2^24 bytes; SQL layer: documents of P0/P1 (quick: <=2 children and 3-element arrays; thorough: all), chains, escape forms and lengths INSERTed into a JSONB column and read back with SELECT *. Every document is non-trivial (exercises parse, encode, view).",
         );
         s.assumptions = &[
             "numbers are compared by f64 value (-0 = 0); std's str::parse::<f64> is trusted for re-reading to_json_string output",
             "duplicate keys: undocumented, so first-wins or last-wins are both accepted, but the choice made for {\"a\":0,\"a\":1} must hold for every object (reported otherwise); objects compare as maps under that choice, key order and to_json_string number formatting are free",
             "out-of-range array index and lookups through a non-object may answer None or Err",
-            "get_path is compared with stepwise calls of the real get (differential), get itself with the generated tree",
+            "get_path is compared with stepwise calls of the real single-step accessors (differential): get(key) on objects, array_get(i) on arrays for canonical decimal index steps; get / array_get themselves are compared with the generated tree. Paths tried per document: every key/index path of the tree, one word and one digit step beyond every scalar, the missing keys zz/0/1 in every object, the out-of-range index and a word step in every array",
+            "stepping INTO array elements is not promised for get_path: for a path through an array element 'absent' is accepted, but an answer must be the stepwise one; a path that never crosses an array must agree exactly",
+            "text round trip: parse_json(to_json_string(jsonb)) must give the document again (numbers by f64 value) whenever to_json_string's text is itself correct according to the harness parser",
             "generated tree and text are cross-checked by the harness's own parser on every document (machinery error on disagreement)",
         ];
         s.cap_quick_s = 100;
@@ -1383,6 +1601,42 @@ impl Check for C32 {
                 run.doc(rep, d, false, "escape_and_number_forms");
             }
         }
+        // integer literals at representation boundaries, fraction/exponent forms of the same magnitudes,
+        // and the renderings the encoder produces for all these values
+        let mut num_forms = boundary_ints();
+        num_forms.extend(boundary_nonint_forms());
+        rep.bound("boundary_number_literals", json!(num_forms.len()));
+        let mut rendered: Vec<T> = Vec::new();
+        for x in num_forms.iter().chain(extra_scalars().iter()).chain(base_scalars().iter()) {
+            if let T::Num(v, _) = x {
+                if let Some(r) = rendering_of(*v) {
+                    let known = |t: &T| matches!((t, &r), (T::Num(_, a), T::Num(_, b)) if a == b);
+                    if !num_forms.iter().any(known) && !rendered.iter().any(known) && !extra_scalars().iter().any(known) && !base_scalars().iter().any(known) {
+                        rendered.push(r);
+                    }
+                }
+            }
+        }
+        rep.bound("rendered_number_literals", json!(rendered.len()));
+        let mut num_docs = Vec::new();
+        for x in num_forms.iter().chain(rendered.iter()) {
+            num_docs.extend(scalar_positions(x));
+        }
+        for d in &num_docs {
+            for sp in [false, true] {
+                if run.slot() {
+                    run.doc(rep, d, sp, "boundary_numbers");
+                }
+            }
+        }
+        // digit-only object keys and look-alikes
+        let digit_docs = digit_key_docs();
+        rep.bound("digit_key_documents", json!(digit_docs.len()));
+        for d in &digit_docs {
+            if run.slot() {
+                run.doc(rep, d, false, "digit_keys");
+            }
+        }
         // string length boundaries
         for (li, n) in LENS.iter().enumerate() {
             for pos in 0..4u64 {
@@ -1434,6 +1688,8 @@ impl Check for C32 {
             }
             sql_docs.extend(chains.iter().cloned());
             sql_docs.extend(esc_docs.iter().cloned());
+            sql_docs.extend(num_docs.iter().cloned());
+            sql_docs.extend(digit_docs.iter().cloned());
             // longer values do not fit a row ("not enough free space": a storage limit, not a JSON matter)
             for n in [254usize, 255, 256, 4000] {
                 for pos in 0..4 {
@@ -1463,7 +1719,7 @@ impl Check for C32 {
         for (k, v) in &run.st.c {
             rep.count(k, *v);
         }
-        for k in ["get_duplicate_key", "get_present_key", "array_get_in_range", "array_get_out_of_range", "get_absent_key", "get_path_present", "get_path_absent", "sql_documents", "P1_depth2_full", "P2_depth3", "P3_depth4", "chains_depth5to8", "documents_fully_consistent"] {
+        for k in ["get_duplicate_key", "get_present_key", "array_get_in_range", "array_get_out_of_range", "get_absent_key", "get_path_present", "get_path_absent", "sql_documents", "P1_depth2_full", "P2_depth3", "P3_depth4", "chains_depth5to8", "documents_fully_consistent", "boundary_numbers", "digit_keys", "reparse_of_rendering", "get_path_through_array_element"] {
             rep.expect_nonzero(k);
         }
     }
